@@ -21,6 +21,7 @@ pub fn no_child(_: &[String]) -> i32 {
 pub mod okey;
 pub mod engine;
 pub mod bulk;
+pub mod cypher14;
 
 pub fn all() -> Vec<StreamDef> {
     vec![
@@ -30,6 +31,7 @@ pub fn all() -> Vec<StreamDef> {
         engine::def_compact(),
         engine::def_abort(),
         bulk::def(),
+        cypher14::def(),
     ]
 }
 
